@@ -461,8 +461,17 @@ class Exec(Interp):
         if base is _MISSING:
             return
         obj = base
+        from .vals import SOpt as _SOpt
         for p in parts[1:-1]:
+            if isinstance(obj, _SOpt):
+                obj = obj.val            # an optional component kept symbolic: the havoc applies to the value it may hold
+            if obj is None:
+                return
             obj = obj.attrs[p] if isinstance(obj, SObj) else obj.fields[p]
+        if isinstance(obj, _SOpt):
+            obj = obj.val
+        if obj is None:
+            return
         last = parts[-1]
         if len(parts) == 1:
             return
